@@ -1,6 +1,9 @@
 #include "../engine.h"
-Prop *make_c01();
+#define P(x) Prop *make_##x();
+P(c01) P(c05)
+#undef P
 Prop *make_prop(const std::string &id) {
 	if (id == "C01") return make_c01();
+	if (id == "C05") return make_c05();
 	return nullptr;
 }
